@@ -14,7 +14,7 @@ var All = []Prop{
 	{"C01", []string{"KEYS", "FLUSH", "PAIR", "DOCFLOW", "ITEMFLAGS", "DEADSTORE", "SKIPPEDEFFECT", "ELEMPTR", "TEMPLATEMAP", "SPRINTEQ", "POOLESCAPE", "REGEXANCHOR", "RECVSTORE", "TRYLOCKSKIP", "LOSSYCMP", "DIRTYGUARD", "TXSHADOW", "LOOSENAME", "POOLDIRTY", "SHAREDSCRATCH", "CUTONCE", "IFACEEQ", "REPEATCMP", "DEADERR", "DEADLINE", "GLOBROOT", "MAPORDER", "POOLRESET", "WALKSKIP", "DIVGUARD", "QUERYRO", "ERRLOOP"},
 		"the document and node id handed to the point store are the very values reported to the indexes, the previous document reported is the one loaded from the store, an update stores exactly the marshalled merge; point-store key tables agree (every key SetPoint writes is deleted by DeletePoint, every key read is written); the id allocator and the point count are persisted on every success exit of the insert and delete transactions; allocated ids flow into the stored point, freed ids belong to the deleted point; the size limit of an update is tested on the merged document that is stored; a read by ids looks every id up (the loop is left only by exhaustion or an error); the id allocator writes both its keys on every flush; no field of the Shard is assigned inside a storage write transaction; an update removes from the merged document only the fields the request names (no sweep over the merged map); each batch method opens one write transaction, not in a loop; a pooled set goes back to its pool emptied on every path",
 		"equality of stored documents, ids and counts with a reference model after arbitrary histories; merge semantics of update; reported id lists", 8},
-	{"C02", []string{"FOLD", "ENUM", "OPTABLE", "SORTABLE", "SCAN", "DOCFLOW", "DEADSTORE", "SKIPPEDEFFECT", "ELEMPTR", "TEMPLATEMAP", "SPRINTEQ", "POOLESCAPE", "REGEXANCHOR", "RECVSTORE", "TRYLOCKSKIP", "LOSSYCMP", "DIRTYGUARD", "LOOSENAME", "POOLDIRTY", "SHAREDSCRATCH", "CUTONCE", "IFACEEQ", "RANK", "REPEATCMP", "DEADERR", "DEADLINE", "GLOBROOT", "MAPORDER", "POOLRESET", "WALKSKIP", "DIVGUARD", "QUERYRO", "ERRLOOP"},
+	{"C02", []string{"MERGE", "FOLD", "ENUM", "OPTABLE", "SORTABLE", "SCAN", "DOCFLOW", "DEADSTORE", "SKIPPEDEFFECT", "ELEMPTR", "TEMPLATEMAP", "SPRINTEQ", "POOLESCAPE", "REGEXANCHOR", "RECVSTORE", "TRYLOCKSKIP", "LOSSYCMP", "DIRTYGUARD", "LOOSENAME", "POOLDIRTY", "SHAREDSCRATCH", "CUTONCE", "IFACEEQ", "RANK", "REPEATCMP", "DEADERR", "DEADLINE", "GLOBROOT", "MAPORDER", "POOLRESET", "WALKSKIP", "DIVGUARD", "QUERYRO", "ERRLOOP"},
 		"every bucket implementation compares iterated keys with range bounds by the comparison its inclusiveness needs; the indexes are told the stored previous and new documents of every change; every key operand that reaches the inverted index is case-folded iff its siblings are; every operator accepted by validation has a handler; each range operator scans exactly (start,end,inclusive) its name means; the order-preserving key codec maps every sign class to the right half of the key space monotonically and is inverted by the decoder; a range scan compares the iterated key with its start bound as well; no change is taken for 'no change' by comparing renderings; a read by ids looks every id up; a dirty flag is only ever set (never assigned a computed value outside a flush); a case fold that depends on the index's case-sensitivity does so for every operand; containsAll over an array intersects a posting set for every queried element",
 		"set equality of results with a model; postings after arbitrary update histories; _and/_or algebra", 30},
 	{"C03", []string{"RANK", "DEADSTORE", "SKIPPEDEFFECT", "ELEMPTR", "TEMPLATEMAP", "SPRINTEQ", "POOLESCAPE", "REGEXANCHOR", "RECVSTORE", "TRYLOCKSKIP", "LOSSYCMP", "DIRTYGUARD", "DOCFLOW", "LOOSENAME", "POOLDIRTY", "SHAREDSCRATCH", "CUTONCE", "IFACEEQ", "QDIST", "REPEATCMP", "DEADERR", "DEADLINE", "GLOBROOT", "ITEMFLAGS", "MAPORDER", "ORDERING", "POOLRESET"},
@@ -231,4 +231,35 @@ func init() {
 	Technique["C20"] += "; lane-level symbolic evaluation (multisets of accumulator lanes) of the horizontal reduction"
 	Technique["C03"] += "; loop-exit analysis of the batched cache read"
 	Technique["C10"] += "; mark-edge dominance of bucket writes in Flush, followed into helpers"
+}
+
+// round8Decides: the clauses of DESIGN.md addendum 8.
+var round8Decides = map[string]string{
+	"C01": "outside its constructor the id allocator's next free id is only ever counted up",
+	"C02": "case folds in the string indexes happen only behind the not-case-sensitive edge; the query executor combines sets by intersection and union only and never writes into a query it was given; a range scan tests an absent bound by nil, not by length",
+	"C03": "the distance a vector search reports is the index's distance itself (no clamp, no arithmetic)",
+	"C04": "a loop of the vector stores that keeps a running minimum looks at every candidate",
+	"C05": "the corpus size of a text index is never compared with, and is counted up only for a document that has tokens",
+	"C06": "the shard's final list is sorted by the request's sort keys only; an appended merged result is registered in the de-duplication map before the next one is looked at; the page is cut with the offset clamped before it enters a sum",
+	"C07": "an error assigned in a loop is looked at before the next iteration overwrites it; no success return lies between a call and the test of its error",
+	"C10": "a decoder of a cached item stores the id it was asked for into the item it returns",
+	"C12": "nothing can fail after a shard was put into the registry; a function handed an operation on a shard does not report success without having run it",
+	"C14": "no directory walk skips subtrees",
+	"C15": "the quota sums the point counts over the list of shards as it was fetched",
+	"C16": "a prefix scan hands out only keys that were tested for the prefix",
+	"C17": "the reply of a shard call is read only behind the nil edge of the call's error",
+	"C18": "an integer division or remainder by the length of a collection lies behind a test that it is not empty; schema validation descends into the _and and the _or list of a query, each read from its own field",
+	"C19": "a range scan tests an absent bound by nil, not by length (the key of the empty string is a legal bound)",
+	"C20": "every entry of the product quantiser's query table is the result of the configured distance function",
+}
+
+func init() {
+	for i := range All {
+		if t, ok := round8Decides[All[i].ID]; ok {
+			All[i].Decides += "; " + t
+		}
+	}
+	Technique["C18"] += "; guard-edge dominance of divisions by a length; clamp-before-sum shape of the page bounds"
+	Technique["C07"] += "; loop-phi use analysis of error values; reachability of success returns avoiding the blocks that test an error"
+	Technique["C16"] += "; edge dominance of the scan callback by the prefix test in both storage backends"
 }
